@@ -1,4 +1,5 @@
 import Marwood.Lemmas.Depth
+import Marwood.Lemmas.DepthGraph
 /-!
 # C19 — depth is limited by memory, not by the host's native stack
 
@@ -15,6 +16,11 @@ every natively recursive function on the grid's paths as a function of its input
 * T19.u — every other (function, direction): at least `n` frames at nesting `n`; no finite native
   stack is enough, so the property cannot hold for a scenario whose path contains such a pair
   (these are the known findings; the child processes exhibit the aborts).
+
+* T19.u on heap GRAPHS — `T19_u_closure_chain`, `T19_u_continuation_chain`: the marker modelled on the C03 heap
+  model (`markDepthHeap`: `mark` / `mark_vcell` / `mark_lambda` / `mark_continuation`, with the mark bits) holds
+  `5·n` frames on a chain of `n` closures (closure → environment → activation environment → closure → …) and
+  `3·n + 3` on a chain of `n` continuations, each saved on the stack of the next: both unbounded.
 
 The property itself ("the host process is never aborted") is false on the pinned tree for most of
 the grid; there is therefore no `_partial` positive theorem — the T19.u statements are the proved
@@ -246,6 +252,48 @@ theorem T19_b_cdr_dotted (n : Nat) :
 theorem T19_u_drop_put_every_list (x : Datum) :
     (Datum.listElems x).length ≤ dropDepth x ∧ (Datum.listElems x).length ≤ maybePutDepth x :=
   ⟨length_le_dropDepth x, length_le_maybePutDepth x⟩
+
+/-! ### the marker on closure chains and continuation chains
+
+`Marwood.Depth.markDepthHeap` models the marker on the heap graph itself (cells of `Heap/Cell.lean`, mark bits
+included) with the recursion structure of `heap.rs`: `mark` loops along `Pair` cdr and `Ptr` and recurses for a
+pair's car, a closure's code and environment, an `EnvironmentPointer`; environment slots, vector elements, bytecode
+cells and saved stack cells go through `mark_vcell` (one more frame each); `mark_lambda` and `mark_continuation` are
+frames of their own. `closureChain n` / `contChain n` are built through `Heap.put` (`Lemmas/DepthGraph.lean` proves
+what the `put`s leave in the heap). -/
+
+/-- **T19.u (closure chain)** — a chain of `n` closures as left by `(define (wrap acc) (lambda () acc))` applied `n`
+    times (closure → its environment → `LexicalEnvPtr` → the activation environment of `wrap` → `Ptr` → the previous
+    closure): marking the outermost closure holds exactly `5·n` native frames (`mark`, `mark`, `mark_vcell`, `mark`,
+    `mark_vcell` per level) — unbounded in `n`. -/
+theorem T19_u_closure_chain (n : Nat) :
+    markDepthHeap (closureChain (n + 1)) [closureRoot (n + 1)] = 5 * (n + 1) ∧
+    ∀ k, 5 * k ≤ markDepthHeap (closureChain k) [closureRoot k] := by
+  refine ⟨markDepth_closureChain n, fun k => ?_⟩
+  cases k with
+  | zero => omega
+  | succ k => rw [markDepth_closureChain k]; omega
+
+/-- **T19.u (continuation chain)** — `n` continuations, each captured while the previous one was on the stack (the
+    saved stack of `k_{i+1}` holds a `Ptr` to `k_i`): marking the newest holds exactly `3·n + 3` native frames (`mark`,
+    `mark_continuation`, `mark_vcell` per level; the `+ 3` is the code object of `ip.0` reached from the oldest
+    continuation) — unbounded in `n`. -/
+theorem T19_u_continuation_chain (n : Nat) :
+    markDepthHeap (contChain (n + 1)) [contRoot (n + 1)] = 3 * (n + 1) + 3 ∧
+    ∀ k, 3 * k ≤ markDepthHeap (contChain k) [contRoot k] := by
+  refine ⟨markDepth_contChain n, fun k => ?_⟩
+  cases k with
+  | zero => omega
+  | succ k => rw [markDepth_contChain k]; omega
+
+/-- the chains are what the `put`s were meant to build: level `j` of the closure chain occupies addresses
+    `3j+2 … 3j+4`, the continuation of level `j` address `j+2` -/
+theorem chain_cells (n : Nat) : ClosureCells (closureChain n) n ∧ ContCells (contChain n) n :=
+  ⟨closureChain_cells n, contChain_cells n⟩
+
+-- instances of the closed forms
+example : markDepthHeap (closureChain 2) [closureRoot 2] = 10 := (T19_u_closure_chain 1).1
+example : markDepthHeap (contChain 2) [contRoot 2] = 9 := (T19_u_continuation_chain 1).1
 
 /-! ### the property at the level the model can state it
 
